@@ -455,3 +455,98 @@ def C11(run):
         "rule": TREE_RULE + "; per tree: copy, compare shape/content/refcounts/bytes, address sets of nodes and buffers, modify and release the copy then re-serialize the source, copy of a copy after releasing the first",
         "trace_lines_validated_by_TLC": res["lines"], "exhaustive": False},
         ["equality of shape, refcounts, byte images and address-set disjointness are judged by TLC on logged observations; use-after-free through a shared node or buffer is observed by ASan"])
+
+
+# ---------------------------------------------------------------------------------------------- C15 / C16
+def C15(run):
+    q = run.quick()
+    mc = tlc_mc(run, "MC_Float", workers=NCPU)
+    lib = build_lib(run, "dbg")
+    exe = build_harness(run, lib, "h_float", ["vh.c", "h_float.c"])
+    out = run.path("float.ndjson")
+    _record_simple(run, exe, [run.tier], out, "float decode/encode")
+    n = count_lines(out)
+    res = tracecheck(run, "Trace_Float", out, boundary=None)
+    _report_rejects(run, res, "float bits", lambda ln, r: "float %s b=%s" % (ln.get("e"), ln.get("b")))
+    extra = {}
+    if not q:
+        import concurrent.futures as cf
+        lib2 = build_lib(run, "o2asan")
+        exe2 = build_harness(run, lib2, "h_float", ["vh.c", "h_float.c"])
+        def work(i):
+            o = run.path("sweep-%d.ndjson" % i)
+            rc, err = run_harness(run, exe2, ["sweep", str(i * 16), str(i * 16 + 15)], o, timeout=3600)
+            bad = [json.loads(l)["bits"] for l in open(o) if "sweepfail" in l]
+            return rc, err, bad
+        swept = 0
+        with cf.ThreadPoolExecutor(max_workers=NCPU) as ex:
+            for rc, err, bad in ex.map(work, range(16)):
+                if rc != 0:
+                    report_violation(run, "float-sweep-crash " + err[-100:], "single-precision sweep ended abnormally: " + err[-800:], {"stderr": err[-3000:]})
+                else:
+                    swept += 1 << 28
+                for b in bad[:5]:
+                    report_violation(run, "single bits=%08x" % b, "single pattern %08x does not survive decode/encode (class rule: NaN => canonical, else identity)" % b, {"bits": b})
+        extra = {"exhaustive_single_patterns": swept}
+    kinds = set()
+    with open(out) as f:
+        for l in f:
+            d = json.loads(l)
+            b = d["b"]
+            kinds.add((d["e"], b[0], b[1] >> 4 if d["e"] != "half" else b[1] >> 6))
+    cov = {"states": mc["distinct"], "transitions": mc["generated"], "traces_validated_against_impl": n - len(res["rejects"]),
+           "samples": _sample_lines(out, 1, lambda l: '"half"' in l and '"b":[60,' in l) + _sample_lines(out, 1, lambda l: '"tot"' in l) + _sample_lines(out, 1, lambda l: '"double"' in l and '[127,24' in l),
+           "evaluations": n, "distinct_nontrivial": len(kinds),
+           "rule": "one case = one bit pattern through cbor_stream_decode, cbor_load + getters, cbor_encode_half/single/double, cbor_serialize and a rebuilt item: all 65,536 halves; singles: every exponent x 14 boundary mantissas x sign, a stride of %s over all 2^32, seeded random; doubles: every exponent x 8 mantissas x sign + seeded random; the half encoder additionally on every one of those singles (totality); distinct = (width, sign/exponent prefix)" % ("4099" if not q else "65537"),
+           "trace_lines_validated_by_TLC": res["lines"], "exhaustive": False}
+    cov.update(extra)
+    write_evidence(run, "model_checking", cov,
+                   ["CborFloat (IEEE-754 fields as integers) is the oracle; MC_Float checks the transcription of cbor_encode_half's algorithm against the requirement on all halves and its totality on every exponent",
+                    "undefined behaviour (out-of-range shifts, bad narrowing) is observed by UBSan in the dbg build",
+                    "thorough: all 2^32 single patterns are swept in-harness with the class rule (NaN => canonical, else identity) that TLC validated on the strided subset"])
+
+
+def C16(run):
+    q = run.quick()
+    mc = tlc_mc(run, "MC_Utf8", "MC_Utf8" if q else "MC_Utf8_4", workers=NCPU)
+    lib = build_lib(run, "o2asan")
+    exe = build_harness(run, lib, "h_utf8", ["vh.c", "h_utf8.c"])
+    import concurrent.futures as cf
+    K = 3 if q else 4
+    parts = NCPU
+    outs = []
+    def work(i):
+        o = run.path("utf8-%d.ndjson" % i)
+        rc, err = run_harness(run, exe, ["sweep", str(K), str(i), str(parts)], o, timeout=7200)
+        return i, rc, err, o
+    total_concrete = 0
+    out = run.path("utf8.ndjson")
+    with open(out, "wb") as fo:
+        with cf.ThreadPoolExecutor(max_workers=parts) as ex:
+            for i, rc, err, o in ex.map(work, range(parts)):
+                if rc != 0:
+                    report_violation(run, "utf8-sweep-crash " + err[-100:], "UTF-8 sweep ended abnormally: " + err[-800:], {"stderr": err[-3000:]})
+                fo.write(open(o, "rb").read())
+        o2 = run.path("utf8-rand.ndjson")
+        _record_simple(run, exe, ["rand", "400" if q else "8000"], o2, "UTF-8 random texts")
+        fo.write(open(o2, "rb").read())
+    n = count_lines(out)
+    res = tracecheck(run, "Trace_Utf8", out, boundary=None)
+    _report_rejects(run, res, "code point count", lambda ln, r: "utf8 %s %s" % (ln.get("e"), ln.get("rep", ln.get("b"))))
+    cls, texts = 0, 0
+    with open(out) as f:
+        for l in f:
+            if l.startswith('{"e":"cls"'):
+                cls += 1
+                total_concrete += int(re.search(r'"n":(\d+)', l).group(1))
+            elif l.startswith('{"e":"txt"'):
+                texts += 1
+    write_evidence(run, "model_checking", {
+        "states": mc["distinct"], "transitions": mc["generated"], "traces_validated_against_impl": n - len(res["rejects"]),
+        "samples": _sample_lines(out, 2, lambda l: '"cls"' in l and '"count":1' in l) + _sample_lines(out, 1, lambda l: '"txt"' in l and '"cp_set":3' in l),
+        "evaluations": total_concrete + texts, "distinct_nontrivial": cls + texts - 1,
+        "concrete_byte_sequences_executed": total_concrete, "class_sequences": cls, "random_texts": texts,
+        "rule": "every byte sequence of length 0..%d (each executed through cbor_string_set_handle; cbor_build_stringn and cbor_load for all of length <= 3 and a 1/61 sample of length 4), grouped by class sequence over the 14-class partition induced by the RFC 3629 ABNF; plus seeded random valid texts with one fault (overwrite, delete, truncate, stray continuation) injected at every position; distinct = class sequence or text; a lone class is trivial only for the empty text" % K,
+        "trace_lines_validated_by_TLC": res["lines"], "exhaustive": True},
+        ["Utf8.Count (RFC 3629 ABNF) is the oracle; MC_Utf8 checks it against an independent numeric definition on every sequence of class representatives and proves the class partition exact",
+         "for a class sequence the harness executes every concrete byte sequence and logs whether all agreed with the representative; TLC judges the representative and that flag"])
